@@ -363,7 +363,9 @@ func (w *vfC15Worker) runCase(c vfC15Case, seed int64) (results []vfC15Result, t
 				q = q.PageState(callerState)
 			}
 		}
-		// the documented pattern "Iter, Release, keep iterating" on odd single-execution cases
+		// odd single-execution cases hand the Query back to the pool - AFTER the iteration is over: doc.go ("Query
+		// values ... must not be modified after starting execution of the query") and the example at Query.Release
+		// (Exec, then Release) do not allow touching the Query while its iterator can still fetch pages
 		rel := len(c.Plan) == 1 && c.Run%2 == 1
 		res, evs := w.runExec(c, e, q, rel, seed)
 		results = append(results, res)
@@ -430,9 +432,6 @@ func (w *vfC15Worker) runExec(c vfC15Case, exec int, q *Query, rel bool, seed in
 			}
 		}()
 		iter = q.Iter()
-		if rel {
-			q.Release()
-		}
 		switch c.Kind {
 		case "Scan":
 			for more() {
@@ -500,9 +499,10 @@ func (w *vfC15Worker) runExec(c vfC15Case, exec int, q *Query, rel bool, seed in
 	if iter != nil {
 		_, exposed = vfC15Tok(c.Run, iter.PageState())
 	}
-	qtok := -2
-	if !rel {
-		_, qtok = vfC15Tok(c.Run, q.pageState) // in-package look at what the execution left in the caller's Query
+	// in-package look at what the execution left in the caller's Query
+	_, qtok := vfC15Tok(c.Run, q.pageState)
+	if rel && panicked == "" {
+		q.Release()
 	}
 	normal, errpage, msg := 1, 0, ""
 	res.Ended = "normal"
@@ -614,7 +614,10 @@ func TestVfC15Run(t *testing.T) {
 				return
 			}
 			defer trOut.Close()
+			progress := vfOutPath(fmt.Sprintf("c15_progress_%d", wi))
 			for k := wi; k < len(cases); k += nw {
+				// which job this worker is in, should the driver take the process down
+				os.WriteFile(progress, []byte(strconv.Itoa(cases[k].Run)), 0644)
 				ress, trs := w.runCase(cases[k], seed)
 				hang := false
 				for i, res := range ress {
